@@ -564,10 +564,15 @@ def _pairs_model(chk, fi: FuncInfo, loop: ast.For) -> PairsModel:
     after = normalised(fi).node.body[k_loop + 1 :]  # same top-level positions up to the loop: the copy only rewrites statements, it splits some after it
     for st in ast.walk(ast.Module(body=list(after), type_ignores=[])):
         if isinstance(st, ast.Call) and astq.callee_name(st) == "merge_and_clean_bph_br" and st.args:
-            arg_text = norm(st.args[0])
-            names = [a for a in appended if (a in arg_text and "[" in a) or any(isinstance(n, ast.Name) and n.id == a for n in ast.walk(st.args[0]))]
-            if len(names) != 1:
+            # the list handed over: merge_and_clean_bph_br(sorted(X)) / (X) - by the consumer, whether or not the loop ever appends to it
+            arg = st.args[0]
+            if isinstance(arg, ast.Call) and isinstance(arg.func, ast.Name) and arg.func.id in ("sorted", "list", "reversed", "set") and len(arg.args) == 1:
+                arg = arg.args[0]
+            if not (isinstance(arg, ast.Name) or (isinstance(arg, ast.Subscript) and isinstance(arg.value, ast.Name))):
                 continue
+            if (arg.id if isinstance(arg, ast.Name) else arg.value.id) not in sites.nonnull:
+                continue
+            names = [norm(arg)]
             # which constructor consumes the result
             tgt = None
             for a in after:
@@ -671,7 +676,7 @@ def check_contacts(chk, fi: FuncInfo, loop: ast.For, m: PairsModel, eq_fields) -
     repo = chk.repo
     s = m.sites
     stores = [x for x in (m.hb, m.bph, m.br) if x]
-    if len(stores) != 3 or sorted(stores) != m.appended:
+    if len(stores) != 3 or not set(m.appended) <= set(stores) or m.hb not in m.appended:
         raise NotReadable(f"the pair loop appends to {m.appended}; hydrogen-bond / base-phosphate / base-ribose stores identified as {m.hb}, {m.bph}, {m.br}")
     # ---- roles: every use of a site dictionary is a look-up by query index ---------------------------------------------
     residual = set()
@@ -752,7 +757,15 @@ def check_contacts(chk, fi: FuncInfo, loop: ast.For, m: PairsModel, eq_fields) -
         )
     # ---- closed world: why does a path record nothing? ----------------------------------------------------------------
     def is_angle(k: str) -> bool:
-        return "angle_between_vectors(" in k
+        if "angle_between_vectors(" in k:
+            return True
+        if "numpy.dot(" in k or "np.dot(" in k:
+            try:
+                n = ast.parse(k, mode="eval").body
+            except SyntaxError:
+                return False
+            return any(angle_quantity(x, ("residue_i.base_normal_vector", "residue_j.base_normal_vector")) is not None for x in ast.walk(n))
+        return False
 
     rec_angle = [frozenset((k, v) for k, v, _ in p.conds if is_angle(k)) for p, e in recs if e.recv == m.hb]
     reasons_any = SAME_TYPE | SAME_LABEL | SAME_AUTH | NO_NORMAL | {t[0] for t in other_ids}
@@ -1435,56 +1448,109 @@ def _disj(parts: List[ast.expr]) -> ast.expr:
     return parts[0] if len(parts) == 1 else ast.BoolOp(op=ast.Or(), values=parts)
 
 
+def unit_of(e: ast.expr) -> Optional[ast.expr]:
+    """V when e is V / numpy.linalg.norm(V) (the unit vector along V)"""
+    if isinstance(e, ast.BinOp) and isinstance(e.op, ast.Div) and isinstance(e.right, ast.Call) and norm(e.right.func) in ("numpy.linalg.norm", "np.linalg.norm") and len(e.right.args) == 1 and norm(e.right.args[0]) == norm(e.left):
+        return e.left
+    return None
+
+
+def angle_quantity(x: ast.AST, units: Sequence[str]) -> Optional[Tuple[str, str, str]]:
+    """(unit, first operand, second operand) when x measures the angle between two directions:
+         angle_between_vectors(a, b)                      the angle in radians            ('rad')
+         numpy.dot(a, b) with a, b unit vectors           its cosine                      ('cos')
+    `units` lists the operand texts known to be unit vectors (base normals); V / |V| is one by construction and is shown as V."""
+    if not isinstance(x, ast.Call) or len(x.args) != 2 or x.keywords:
+        return None
+    if astq.callee_name(x) == "angle_between_vectors":
+        return "rad", norm(x.args[0]), norm(x.args[1])
+    if norm(x.func) in ("numpy.dot", "np.dot"):
+        ops = []
+        for a in x.args:
+            u = unit_of(a)
+            if u is not None:
+                ops.append(norm(u))
+            elif norm(a) in units or (isinstance(a, ast.UnaryOp) and isinstance(a.op, ast.USub) and norm(a.operand) in units):
+                ops.append(norm(a))
+            else:
+                return None
+        return "cos", ops[0], ops[1]
+    return None
+
+
 def check_angles(chk, fi: FuncInfo, m: PairsModel, fold, c: Dict[str, Any]) -> None:
     from sa import intervals
 
+    NORMALS = ("residue_i.base_normal_vector", "residue_j.base_normal_vector")
+    VECS = ("atom_i.coordinates - atom_j.coordinates", "atom_j.coordinates - atom_i.coordinates")
+
+    def quantities(n: ast.AST) -> List[Tuple[ast.Call, Tuple[str, str, str]]]:
+        out = []
+        for x in ast.walk(n):
+            q = angle_quantity(x, NORMALS)
+            if q is not None and ({q[1], q[2]} & set(NORMALS)) and not ({q[1], q[2]} <= set(NORMALS)):
+                out.append((x, q))
+        return out
+
     def is_angle(n: ast.AST) -> bool:
-        return any(isinstance(x, ast.Call) and astq.callee_name(x) == "angle_between_vectors" for x in ast.walk(n))
+        return bool(quantities(n))
 
     rec = [(p, e) for p in m.paths for e in p.effects if e.recv == m.hb and e.method == "append"]
     if not rec:
         raise NotReadable("no path records a hydrogen bond")
     site = rec[0][1].node
     alts = []
-    calls: Dict[str, ast.Call] = {}
+    calls: Dict[str, Tuple[ast.Call, Tuple[str, str, str]]] = {}
     for p, e in rec:
         cs = [(k, v, n) for k, v, n in p.conds if is_angle(n)]
         alts.append(_conj(cs))
         for k, v, n in cs:
-            for x in ast.walk(n):
-                if isinstance(x, ast.Call) and astq.callee_name(x) == "angle_between_vectors":
-                    calls[norm(x)] = x
+            for x, q in quantities(n):
+                calls[norm(x)] = (x, q)
     if not calls:
         chk.violation("angle-window", fi.site(site), "a hydrogen bond is recorded without any test of the angles between the contact vector and the base normals", K(fi, "angle-window"))
         return
     test = ast.fix_missing_locations(_disj(list({norm(a): a for a in alts}.values())))
     sig = sorted(calls)
-    vec_ok = [len(x.args) == 2 and norm(x.args[1]) in ("atom_i.coordinates - atom_j.coordinates", "atom_j.coordinates - atom_i.coordinates") for x in calls.values()]
-    normals = sorted({norm(x.args[0]) for x in calls.values() if len(x.args) == 2})
+    by_normal: Dict[str, List[Tuple[ast.Call, str]]] = {}
+    vec_ok = True
+    for x, (unit, a, b) in calls.values():
+        nrm = a if a in NORMALS else b
+        other = b if a in NORMALS else a
+        vec_ok = vec_ok and other in VECS
+        by_normal.setdefault(nrm, []).append((x, unit))
+    normals = sorted(by_normal)
     chk.expect(
-        normals == ["residue_i.base_normal_vector", "residue_j.base_normal_vector"] and all(vec_ok),
+        normals == sorted(NORMALS) and vec_ok,
         "angle-operands",
         fi.site(site),
-        "the two angles are taken between the contact vector and the normals of the two different residues",
+        "the two angles are taken between the contact vector and the normals of the two different residues" + (" (as cosines: dot products with the unit contact vector)" if any(u == "cos" for x, (u, a, b) in calls.values()) else ""),
         "the angle test does not use the normals of both residues against the contact vector atom_i - atom_j",
         K(fi, "angle-operands"),
         found=sig,
     )
     if len(normals) == 2:
-        qs = [((lambda n, t=t: isinstance(n, ast.Call) and astq.callee_name(n) == "angle_between_vectors" and len(n.args) == 2 and norm(n.args[0]) == t), "rad") for t in normals]
+        qs = []
+        for t in normals:
+            texts = {norm(x): unit for x, unit in by_normal[t]}
+            units = set(texts.values())
+            if len(units) != 1:
+                chk.error("angle-window", fi.site(site), f"the angle to {t} is measured both as an angle and as a cosine")
+                return
+            qs.append(((lambda n, texts=texts: isinstance(n, ast.Call) and norm(n) in texts), units.pop()))
         lo, hi = c["hbond_angle_window_deg"]
         try:
-            reg = intervals.region(test, qs, fold, extra_thresholds=(lo, hi))
-            bad = {k: v for k, v in reg.items() if v != (lo < k[0] < hi and lo < k[1] < hi)}
+            reg = intervals.region(test, qs, fold, extra_thresholds=(lo, hi, 0.0, 180.0))
+            bad = {k: v for k, v in reg.items() if 0 <= k[0] <= 180 and 0 <= k[1] <= 180 and v != (lo < k[0] < hi and lo < k[1] < hi)}
             chk.expect(
                 not bad,
                 "angle-window",
                 fi.site(site),
                 f"a contact counts iff both angles lie in ({lo}, {hi}) degrees ({len(reg)} cells compared, accept condition read from {len(rec)} recording path(s))",
-                f"accept region of the angle test differs from ({lo}, {hi}) degrees on both normals",
+                (f"accept region of the angle test differs from ({lo}, {hi}) degrees on both normals: e.g. angles {sorted(bad)[0]} degrees are {'accepted' if bad[sorted(bad)[0]] else 'rejected'} (accept condition `{norm(test)[:120]}`)" if bad else ""),
                 K(fi, "angle-window"),
                 expected=f"{lo} < angle_i < {hi} and {lo} < angle_j < {hi} (degrees)",
-                found={str(k): v for k, v in list(bad.items())[:6]},
+                found={str(k): v for k, v in list(sorted(bad.items()))[:6]},
             )
         except intervals.NotThreshold as ex:
             chk.error("angle-window", fi.site(site), str(ex))
